@@ -202,7 +202,7 @@ def supply_modes(ctx, table, rnd, n):
             f"e.a{m} + {m}", f"e.jets.Select(lambda j: j.pt > {m})", f"(e.x{m}, e.y)", f"e.m{m}(1, k={m})", f"e.x if e.y > {m} else e.z",
             f"{{'k{m}': e.x, 'j': e.y}}", f"e.x[{m}]", f"-e.x{m}", f"e.s == 'q{m}'",
         ]))
-    src = modgen.DS_HEADER + "def build(ds):\n    out = []\n"
+    src = modgen.DS_HEADER + "def good(js): return js.Select(lambda j: j.pt)\ndef twice(x): return x * 2\n" + "def build(ds):\n    out = []\n"
     for b in bodies:
         src += f"    out.append(ds.Select(lambda e: {b}))\n"
         src += f"    out.append(ds.Select(lambda e: (   {b}  )  # comment\n        ))\n"
@@ -225,7 +225,8 @@ def supply_modes(ctx, table, rnd, n):
             continue
         hs = []
         for s, how in [(streams[2 * i], "callable"), (streams[2 * i + 1], "callable-reformatted"), (s_str, "string"), (s_ast, "ast")]:
-            hs.append((how, table.see(s.query_ast, "supply-mode:" + how), astx.dump_fields(s.query_ast, ctx=True)))
+            # grouped by the ctx-insensitive key: a Name with and without an explicit Load() is the same query to the user
+            hs.append((how, table.see(s.query_ast, "supply-mode:" + how), astx.dump_fields(s.query_ast, ctx=False)))
         ctx.case("supply:" + text, True)
         ctx.count("supply-mode-groups")
         keys = {k for _, _, k in hs}
@@ -233,6 +234,32 @@ def supply_modes(ctx, table, rnd, n):
             ctx.violation("supply-mode-dependent", f"{text}: {[(w, h) for w, h, _ in hs]}", {"text": text})
         elif len(keys) != 1:
             ctx.count("supply-mode:structures-differ(not judged here; C10/C03)")
+    # the same selection written inline (text) and through captured helpers / called lambdas (callable)
+    hsrc = modgen.DS_HEADER + ("def good(js): return js.Select(lambda j: j.pt)\n"
+                               "def deep(js): return js.Select(lambda j: j.trks.Select(lambda t: t.pt + j.pt))\n"
+                               "def h1(ds): return ds.Select(lambda e: good(e.jets))\n"
+                               "def h2(ds): return ds.Select(lambda e: (lambda js: js.Select(lambda j: j.pt))(e.jets))\n"
+                               "def h3(ds): return ds.Select(lambda j: deep(j.jets))\n")
+    hm = modgen.load(hsrc, "c20h")
+    hds = hm.DS()
+    for fn, text in [("h1", "lambda e: e.jets.Select(lambda j: j.pt)"), ("h2", "lambda e: e.jets.Select(lambda j: j.pt)"), ("h3", None)]:
+        try:
+            s_call = getattr(hm, fn)(hds)
+        except Exception as e:
+            ctx.count("supply-modes:helper-raised:" + type(e).__name__)
+            continue
+        ctx.case("supply-helper:" + fn, True)
+        ctx.count("supply-mode-helper-groups")
+        h_call = table.see(s_call.query_ast, "supply-mode:callable-with-helper")
+        if text is None:
+            text = astx.unparse(s_call.query_ast.args[1])  # what was recorded, written as text
+        s_text = hds.Select(text)
+        if astx.dump_fields(s_call.query_ast, ctx=False) == astx.dump_fields(s_text.query_ast, ctx=False):
+            if table.see(s_text.query_ast, "supply-mode:text-of-inlined") != h_call:
+                ctx.violation("supply-mode-dependent:helper", f"{fn}: the query built through a helper hashes differently from the same query given as text {text!r}", {"text": text})
+        else:
+            ctx.count("supply-mode:helper-structures-differ(not judged)")
+    modgen.unload(hm)
     modgen.unload(m)
 
 
@@ -321,7 +348,10 @@ def shard_main(ctx):
     if h1 == h2:
         ctx.violation("insensitive-to:edit-at-end-of-long-query", "two 400-element queries differing in the last constant hash equal", {"text": "long"})
     # queries that differ only in non-ASCII / astral characters (names, attributes, string constants)
-    uni = [("e.s\u00e9lection", "e.s\u00e8lection"), ("e.f('donn\u00e9es_\u00b5.root')", "e.f('donn\u00e9es_\u00b1.root')"), ("e.f('\U0001F600')", "e.f('\U0001F601')"),
+    uni = [("e.f('<status word at 0x1F>')", "e.f('<status word at 0x2F>')"), ("e.Collection('<block at 0xA0>')", "e.Collection('<block at 0xB0>')"),
+           ("e.f('<function f at 0x7f00aa>')", "e.f('<function f at 0x7f00ab>')"), ("e.f('a  b')", "e.f('a b')"), ("e.f('Load()')", "e.f('Store()')"),
+           ("e.f(\"x', ctx=Load())\")", "e.f(\"x', ctx=Store())\")"), ("e.f('lineno=1')", "e.f('lineno=2')"),
+           ("e.s\u00e9lection", "e.s\u00e8lection"), ("e.f('donn\u00e9es_\u00b5.root')", "e.f('donn\u00e9es_\u00b1.root')"), ("e.f('\U0001F600')", "e.f('\U0001F601')"),
            ("e.f('\u4e2d')", "e.f('\u6587')"), ("\u00e9v.x", "\u00e8v.x"), ("e.f('a\u0301')", "e.f('\u00e1')")]
     for a, b in uni:
         ta, tb = f"Select(EventDataset(), lambda e: {a})".replace("lambda e: \u00e9v", "lambda \u00e9v: \u00e9v").replace("lambda e: \u00e8v", "lambda \u00e8v: \u00e8v"), None
